@@ -1,20 +1,21 @@
-\* smoke test
+\* C09 finding: amoco's quirk KeyedStores ALONE (everything else repaired) must violate Correct:
+\* a narrower store to a written location re-asserts the old upper bytes after stores through other pointers
 CONSTANTS
   Ptrs = {"p", "q"}
   Offs = {0, 1}
   Sizes = {1, 2}
   Deltas <- DeltasSmall
-  P0 = 6
-  Top = 15
+  P0 = 4
+  Top = 10
   NAs = {FALSE}
   MTs = {TRUE}
-  Ens = {1}
+  Ens <- EnsLE
   MInits = {0}
   VKs = {"d"}
   MaxSt = 3
   MaxLd = 0
   MaxLen = 3
-  Q = {}
+  Q = {"KeyedStores"}
   Clauses <- AllClauses
   Probe = TRUE
   PvInState = FALSE
